@@ -99,7 +99,7 @@ func runExplore(raw json.RawMessage) (interface{}, error) {
 			seenSig[out.Viol.Sig] = true
 			v := *out.Viol
 			v.Replay = map[string]interface{}{"job": "explore", "arg": exploreArg{Harness: a.Harness, Arg: a.Arg,
-				Prefix: explore.Choices(r.Points), Points: a.Points, DaemonLast: a.DaemonLast, Single: true}}
+				Prefix: trimZeros(explore.Choices(r.Points)), Points: a.Points, DaemonLast: a.DaemonLast, Single: true}}
 			res.Viols = append(res.Viols, &v)
 		}
 		if a.DeadlineUnix > 0 && time.Now().Unix() > a.DeadlineUnix {
@@ -121,7 +121,7 @@ func runExplore(raw json.RawMessage) (interface{}, error) {
 				seenSig[sig] = true
 				res.Viols = append(res.Viols, &report.Violation{Property: "C14", Sig: sig, Detail: rep,
 					Replay: map[string]interface{}{"job": "explore", "race_build": true, "arg": exploreArg{Harness: a.Harness, Arg: a.Arg,
-						Prefix: explore.Choices(r.Points), Points: a.Points, DaemonLast: a.DaemonLast, Single: true}}})
+						Prefix: trimZeros(explore.Choices(r.Points)), Points: a.Points, DaemonLast: a.DaemonLast, Single: true}}})
 			}
 			return r
 		}
@@ -130,8 +130,11 @@ func runExplore(raw json.RawMessage) (interface{}, error) {
 		r := run(a.Prefix)
 		visit(a.Prefix, &r)
 		res.Execs = 1
-		res.Children = explore.Children(a.Prefix, r.Points, a.Bound)
+		res.Children = explore.ChildrenOf(a.Prefix, &r, a.Bound)
 		res.Sample = explore.Choices(r.Points)
+		if len(res.Sample) > 50_000 {
+			res.Sample = res.Sample[:50_000]
+		}
 		res.MaxPts = len(r.Points)
 		if r.Diverged {
 			res.Err = "nondeterminism: " + r.Msg
@@ -249,6 +252,14 @@ func ExploreAllOpt(r *report.Report, name string, arg interface{}, bound, points
 		r.Exhaustive = false
 	}
 	return sum
+}
+
+// trimZeros drops the trailing default choices of a schedule (a replay takes choice 0 after its prefix anyway).
+func trimZeros(c []int) []int {
+	for len(c) > 0 && c[len(c)-1] == 0 {
+		c = c[:len(c)-1]
+	}
+	return c
 }
 
 func keysOf(m map[string]int64) string {
